@@ -328,6 +328,40 @@ def c12(tier):
         rep.failure(sig, "%s: %s; exit %s, %d diagnostic line(s), files %s; stderr tail: %s" % (
             c["id"], v, c["obs"]["exit"], c["obs"]["ndiag"], {k: c["obs"][k] for k in GD.GENFILES}, c["stderr"][-300:].replace("\n", " | ")),
             {"id": c["id"], "files": files, "obs": c["obs"], "stderr": c["stderr"]})
+    # ---- beyond the listed properties: the line-continuation wrapper of the .lox front-end (FrontLexer.tla) is bound to
+    #      the code through a verif-tag hook; its recorded output must be the model's output for the recorded raw tokens
+    fl_ok = fl_n = 0
+    try:
+        tool = build_tool(sc, "frontlex")
+        texts = []
+        for cse in done:
+            if cse["files"]:
+                for fn, data in cse["files"].items():
+                    if fn.endswith(".lox"):
+                        b = data if isinstance(data, bytes) else data.encode("utf-8", errors="surrogateescape")
+                        if len(b) < 3000:
+                            texts.append(list(b))
+        texts = texts[:(400 if quick else 3000)]
+        tf = os.path.join(sc, "frontlex_in.json")
+        json.dump(texts, open(tf, "w"))
+        fo = json.loads(run([tool, tf], timeout=300).stdout.decode())
+        nm = fo["names"]
+        fcases = [{"raw": o["raw"] or [], "wrapped": o["wrapped"] or []} for o in fo["outs"] if not o["panic"]]
+        json.dump({"cases": fcases, "k": {"EOF": 0, "ERROR": 1, "NL": nm["NL"], "EXTEND": nm["EXTEND"], "OR": nm["OR"]}},
+                  open(os.path.join(sd, "frontlex.json"), "w"))
+        rf = tlc(sc, "FrontLexer", cfg="FrontLexer.cfg", cwd=sd, timeout=900)
+        tlc_must(rf, "FrontLexer")
+        flbad = [l for l in rf.lines if l.get("fl") == "bad"]
+        fl_n = len(fcases)
+        fl_ok = fl_n - len([b for b in flbad if not b["same"]])
+        for b in flbad[:3]:
+            if not b["same"]:
+                rep.note("DRIFT: the front-end lexer wrapper deviates from FrontLexer.tla on input %d" % b["c"])
+            else:
+                rep.note("FrontLexer.tla (beyond the listed properties): on some text the wrapper hands the parser %s" % (
+                    "an EXTEND token" if not b["noExtend"] else ("NL NL" if not b["noNLNL"] else "NL before OR")))
+    except Infra as e:
+        rep.note("front-end wrapper binding skipped: %s" % str(e)[:200])
     nsucc = len([c for c in done if c["obs"]["exit"] == 0])
     rep.coverage = {
         "evaluations": len(done), "distinct_nontrivial": len(set(json.dumps(c["files"], default=lambda b: b.decode("latin1"), sort_keys=True) for c in done)),
@@ -335,10 +369,11 @@ def c12(tier):
                 "must fail; grammar inputs: token-level and byte-level mutations of valid .lox files with boundary lexemes, and texts derived "
                 "from the shape of lox's own grammar; every observation (exit, diagnostics, files present and parseable, panic/hang) must be a "
                 "terminal state of GenPipeline.tla; distinct = distinct file sets" % (len(LOX_FAULTS), len(GO_FAULTS)),
+        "frontlexer_traces_validated": fl_ok, "frontlexer_traces": fl_n,
         "configurations": ncfg, "succeeded": nsucc, "failed_with_diagnostic": len(done) - nsucc - len(rep.fail),
         "states": rm.distinct + r.distinct, "transitions": rm.states + r.states,
         "samples": [{"id": done[0]["id"], "obs": done[0]["obs"]}, {"id": done[-1]["id"], "obs": done[-1]["obs"],
-                                                                  "lox": (done[-1]["files"] or {}).get("g.lox", b"").decode("utf-8", errors="replace")[:400]}],
+                                                                  "lox": (lambda x: x.decode("utf-8", errors="replace") if isinstance(x, bytes) else x)((done[-1]["files"] or {}).get("g.lox", b""))[:400]}],
     }
     rep.assumptions = ["the search over grammar texts is generation, not model checking; TLC contributes the outcome model and judges every observation",
                        "60 s per run stands for a hang", "gofmt -e decides whether a generated file parses"]
